@@ -82,6 +82,9 @@ func AccFn(isSet bool, f Fn) N {
 	return N{"acf(" + k + "," + g.Expr().SX + ")", "Object.getOwnPropertyDescriptor({" + kw + " p(" + ps + ") { " + bodyJS(g.Vars, g.Decls, g.Body, 0) + " }}, \"p\")." + kw}
 }
 
+// HostFn is the harness's host function __hostThis (it returns what it received as This).
+func HostFn() N { return N{"hfn", "__hostThis"} }
+
 // FnCtor is Function("<body>") for a function without name and parameters.
 func FnCtor(f Fn) N {
 	return N{"fnc(" + Fn{Vars: f.Vars, Decls: f.Decls, Body: f.Body}.Expr().SX + ")", "Function(" + strconv.Quote(bodyJS(f.Vars, f.Decls, f.Body, 0)) + ")"}
